@@ -32,9 +32,9 @@ PROPS = {
     "C07": dict(fams=[("print", 1500, "fast"), ("sink", 3000, "fast"), ("printall", 1, "fast")], mult=10),
     "C08": dict(fams=[("tok", 1, "fast")], mult=2),
     "C09": dict(fams=[], mult=10, special="macro"),
-    "C10": dict(fams=[("text", 1500, "fast"), ("malformed", 1500, "fast")], mult=10),
+    "C10": dict(fams=[("text", 1500, "fast"), ("malformed", 1500, "fast"), ("deep", 1, "fast"), ("tok", 1, "fast")], mult=10),
     "C11": dict(fams=[("text", 2000, "fast"), ("malformed", 500, "fast")], mult=10),
-    "C12": dict(fams=[("text", 1500, "fast"), ("malformed", 2000, "fast"), ("deep", 1, "fast")], mult=10),
+    "C12": dict(fams=[("trivia", 2000, "fast"), ("text", 1500, "fast"), ("malformed", 2000, "fast"), ("deep", 1, "fast")], mult=10),
     "C13": dict(fams=[("pp", 4000, "fast"), ("pp", 1000, "nofast")], mult=10),
     "C14": dict(fams=[("serde", 1500, "fast"), ("deser", 1500, "fast")], mult=20),
     "C15": dict(fams=[("values", 1500, "fast"), ("alist", 1500, "fast")], mult=20),
@@ -134,12 +134,15 @@ def audit(prop, modules, workdir):
                 if m:
                     problems.append("forbidden token %r in %s" % (m.group(0), fn))
     # theorem modules imported by the property file (LexprModel.Proofs.*) are audited too
-    extra = []
-    for m in modules:
+    todo, seen = list(modules), set(modules)
+    while todo:
+        m = todo.pop()
         path = os.path.join(LEAN, m.replace(".", "/") + ".lean")
         if os.path.exists(path):
-            extra += re.findall(r"^import\s+(LexprModel\.Proofs\.\S+)", open(path).read(), re.M)
-    modules = modules + [e for e in extra if e not in modules]
+            for e in re.findall(r"^import\s+(LexprModel\.(?:Proofs|Props)\.\S+)", open(path).read(), re.M):
+                if e not in seen:
+                    seen.add(e); todo.append(e)
+    modules = modules + sorted(e for e in seen if e not in modules)
     names = []
     for m in modules:
         names += theorem_names(m)
@@ -151,9 +154,10 @@ def audit(prop, modules, workdir):
             f.write("#print axioms %s\n" % n)
     rc, out = sh(["lake", "env", "lean", audit_file], cwd=LEAN, env=dict(os.environ))
     axioms = {}
-    for m in re.finditer(r"'([^']+)' depends on axioms: \[([^\]]*)\]", out):
+    flat = re.sub(r"\n\s+", " ", out)       # long axiom lists are wrapped over several lines
+    for m in re.finditer(r"^'(.+?)' depends on axioms: \[([^\]]*)\]", flat, re.M):
         axioms[m.group(1)] = [a.strip() for a in m.group(2).split(",") if a.strip()]
-    for m in re.finditer(r"'([^']+)' does not depend on any axioms", out):
+    for m in re.finditer(r"^'(.+?)' does not depend on any axioms", flat, re.M):
         axioms[m.group(1)] = []
     for n in names:
         if n not in axioms:
@@ -317,6 +321,13 @@ def run_depth(prop, tier, workdir):
                 continue
             for n in sizes:
                 jobs.append((op, shape, n))
+    # element kinds that an implementation might special-case, and nesting written as dotted pairs
+    big = sizes[-1] if tier == "thorough" else 300000
+    for op in ("drop", "parse_drop", "into_iter_drop", "print", "index"):
+        for shape in ("nils", "nulls", "strings"):
+            jobs.append((op, shape, big))
+    for op in ("parse", "parse_str", "parse_datum"):
+        jobs.append((op, "dotchain", 200000))
     def one(job):
         op, shape, n = job
         try:
